@@ -89,3 +89,66 @@ pub open spec fn members_sorted2(sb: Seq<u8>, ms: Seq<raw::Member>) -> bool {
             lex2(seq_cmp(member_name(sb, #[trigger] ms[i]), member_name(sb, #[trigger] ms[j])),
                  seq_cmp(member_params(sb, ms[i]), member_params(sb, ms[j]))) != Ordering::Greater)
 }
+
+// ---- whole-cache representation invariant (what the cache writer establishes for mappings in the properties' domain;
+//      sortedness / interning are produced by BTreeMap + StringTable inside ProguardCache::write and are ASSUMED there) ----
+pub open spec fn class_members(c: ProguardCache, cl: raw::Class) -> Seq<raw::Member> {
+    c.members@.subrange(cl.members_offset as int, cl.members_offset as int + cl.members_len as int)
+}
+pub open spec fn class_members_by_params(c: ProguardCache, cl: raw::Class) -> Seq<raw::Member> {
+    c.members_by_params@.subrange(cl.members_by_params_offset as int, cl.members_by_params_offset as int + cl.members_by_params_len as int)
+}
+// equal original-method strings are stored at equal offsets (StringTable interning)
+pub open spec fn names_interned(sb: Seq<u8>, ms: Seq<raw::Member>) -> bool {
+    forall|i: int, j: int| 0 <= i < ms.len() && 0 <= j < ms.len()
+        && tbl(sb, (#[trigger] ms[i]).original_name_offset) == tbl(sb, (#[trigger] ms[j]).original_name_offset)
+        ==> ms[i].original_name_offset == ms[j].original_name_offset
+}
+pub open spec fn wf_class(c: ProguardCache, cl: raw::Class) -> bool {
+    let sb = c.string_bytes@;
+    tbl(sb, cl.original_name_offset) is Some
+    && cl.members_offset as int + cl.members_len as int <= c.members@.len()
+    && cl.members_by_params_offset as int + cl.members_by_params_len as int <= c.members_by_params@.len()
+    && members_sorted(sb, class_members(c, cl))
+    && members_sorted2(sb, class_members_by_params(c, cl))
+    && (forall|k: int| 0 <= k < class_members(c, cl).len() ==> wf_member(sb, #[trigger] class_members(c, cl)[k]))
+    && (forall|k: int| 0 <= k < class_members_by_params(c, cl).len() ==> wf_member(sb, #[trigger] class_members_by_params(c, cl)[k]))
+    && names_interned(sb, class_members(c, cl))
+}
+pub open spec fn wf_cache(c: ProguardCache) -> bool {
+    classes_sorted(c.string_bytes@, c.classes@)
+    && tbl(c.string_bytes@, absent()) is None
+    && (forall|i: int| 0 <= i < c.classes@.len() ==> wf_class(c, #[trigger] c.classes@[i]))
+}
+// the class with obfuscated name `name`, if any (unique by strict sortedness)
+pub open spec fn has_class(c: ProguardCache, i: int, name: Seq<char>) -> bool {
+    0 <= i < c.classes@.len() && tbl(c.string_bytes@, c.classes@[i].obfuscated_name_offset) == Some(name)
+}
+pub open spec fn no_class(c: ProguardCache, name: Seq<char>) -> bool {
+    forall|i: int| 0 <= i < c.classes@.len() ==> tbl(c.string_bytes@, (#[trigger] c.classes@[i]).obfuscated_name_offset) != Some(name)
+}
+
+// ---- the frame iterator as a ghost value ----
+pub open spec fn deref_members(r: Seq<&raw::Member>) -> Seq<raw::Member> { Seq::new(r.len(), |i: int| *r[i]) }
+
+#[verifier::prophetic]
+pub open spec fn it_wf(it: RemappedFrameIter) -> bool {
+    match it.inner {
+        None => true,
+        Some((cache, frame, members)) => members.obeys_prophetic_iter_laws() && members.decrease() is Some
+            && wf_members(cache.string_bytes@, members.remaining()) && frame.line < 0xffff_ffff,
+    }
+}
+#[verifier::prophetic]
+pub open spec fn it_members(it: RemappedFrameIter) -> Seq<raw::Member> {
+    match it.inner { None => Seq::empty(), Some((cache, frame, members)) => deref_members(members.remaining()) }
+}
+#[verifier::prophetic]
+pub open spec fn it_answers(it: RemappedFrameIter) -> Seq<AFrame> {
+    match it.inner {
+        None => Seq::empty(),
+        Some((cache, frame, members)) =>
+            if frame.parameters is None { retrace(abs_members(cache.string_bytes@, members.remaining()), aframe(frame)) }
+            else { by_params(abs_members(cache.string_bytes@, members.remaining()), aframe(frame)) },
+    }
+}
